@@ -87,3 +87,11 @@ Theorem c14_code_visits_maps_in_key_order :
   /\ existsb (fun r => String.eqb (iter_file r) "evaluate.go" && String.eqb (iter_class r) "sorted-bytewise") GoTables.go_map_iteration = true.
 Proof. exact (conj TieOrder.evaluation_visits_maps_in_key_order TieOrder.evaluation_enumerates_a_map). Qed.
 Print Assumptions c14_code_visits_maps_in_key_order.
+
+(* a call is a function of (expression, options, datum) only if evaluation leaves the evaluator's shared tree and the package state alone:
+   no call on the evaluation path writes through a container it did not make itself, and no package-level variable is written *)
+From Bexpr Require Import TieWrites.
+Theorem c14_evaluation_path_mutates_only_its_own_containers :
+  evaluation_path_shared_calls = [].
+Proof. exact TieWrites.evaluation_path_mutates_only_its_own_containers. Qed.
+Print Assumptions c14_evaluation_path_mutates_only_its_own_containers.
